@@ -1346,6 +1346,14 @@ def check_C20(A: Analysis, tier):
                         rd.fail(main, f"{meth}({pn}=<option> or <default>)", f"`{pn}` of {meth} is taken from the option with an `or` default: an explicitly given "
                                 "but falsy value (the empty string) is silently replaced, where the API would use or reject exactly what was given",
                                 A.p.loc(main, c["node"]))
+            if pn == "format_id":
+                rd.ob()
+                for t in v:
+                    ok_t = t == NONE or tag(t) == "opt" or (tag(t) == "item" and t[2] == C("store_metadata_namespace")) or tag(t) == "orelse"
+                    if not ok_t:
+                        rd.fail(main, f"{meth}({pn}=<hard-coded default>)", f"`{pn}` of {meth} can be {show(t)[:60]}: a default that is neither the option nor the store's "
+                                "own `store_metadata_namespace` from hashstore.yaml (the API's default), so client and API address different documents",
+                                A.p.loc(main, c["node"]))
             if (meth, pn) in NONE_SENSITIVE:
                 rd.ob()
                 rd.inst(f"{meth}({pn}=) <- {showv(v)[:80]}")
